@@ -7,77 +7,77 @@ CHECKS = {
  "C12": dict(
    technique="bounded exhaustive enumeration of stored-row tuples x compositions x arm-change variants x cluster/tree settings x policies; cell membership taken from the fitted scikit-learn object, expectations compared with the policy re-trained on exactly the cell's rows",
    text="Every tuple of up to n points of a 5-point grid is stored through every composition into fit + partial_fit* (with add_arm / remove_arm variants) under KMeans(2), MiniBatchKMeans(2), KMeans(3) and three tree parameter sets; for every grid query the expectations must be those of the learning policy trained from scratch on exactly the rows sharing the query's cluster / the arm's rewards sharing the query's leaf.",
-   note="scikit-learn trusted for labels_/predict/apply; queries on centroid ties skipped and counted; n<=4 (quick, with reductions stated in the evidence) / n<=5 (thorough); variants: add_arm, remove_arm, 'query then fit again on one arm's rows'",
+   note="scikit-learn trusted for labels_/predict/apply; queries on centroid ties skipped and counted; n<=4 (quick, with reductions stated in the evidence) / n<=5 (thorough); variants: add_arm, remove_arm, 'query then fit again on one arm's rows'; default trees / KMeans(2) additionally with n_jobs=2 (joblib model)",
    ref="DESIGN.md section 7 (C12)"),
  "C20": dict(
    technique="exhaustive enumeration of relabellings x combinations, of all n! row permutations of every training subset, and of reward shift/scale constants over all short histories; metamorphic oracles",
    text="(a) a scenario covering training, arm changes and predictions is run under four relabellings (type and sort order changed) for every combination and must produce the renamed outputs with the same draws; (b) every permutation of every subset of up to 5 fixed rows gives the same expectations for context-free, linear and Radius/LSHNearest bandits; (c) reward shift / scale laws hold on every row sequence (n<=3) and composition in which every arm is observed.",
-   note="relabellings incl. unequal-length strings; permutations both for a single fit and for rows fed one call at a time; bit-exact on the exactly summable alphabet, 1e-9 for linear policies; KNearest excluded from (b) as the statement allows",
+   note="relabellings incl. unequal-length strings; permutations both for a single fit and for rows fed one call at a time; bit-exact on the exactly summable alphabet, 1e-9 for linear policies; KNearest excluded from (b) as the statement allows; shift constants +-2^20",
    ref="DESIGN.md section 7 (C20)"),
  "C13": dict(
    technique="explicit-state BFS over the real bandit from every (policy, feature assignment, trained subset) initial state over {warm_start x 5 quantiles, partial_fit, fit, add_arm, remove_arm}; status-machine reference model in lock-step; per-transition rule oracle",
    text="For each of eight policies, all 125 assignments of five feature vectors (zero and duplicates included) to three arms and all six proper trained subsets, every operation sequence up to the depth bound is executed; a three-valued status machine must predict cold_arms in every state and each warm_start is judged against the documented rule (only cold arms change, exact copy of a closest trained arm, within the quantile threshold, idempotent, monotone in the quantile).",
-   note="depth 2 (quick) / 3 on the 27 assignments over non-zero vectors (thorough); scipy cdist(cosine) and np.quantile trusted; per-arm learned state read from the implementor's documented fields",
+   note="depth 2 (quick) / 3 on the 27 assignments over non-zero vectors (thorough); scipy cdist(cosine) and np.quantile trusted; per-arm learned state read from the implementor's documented fields; LinGreedy / LinUCB with scale=True (the learned state of an arm is the whole regression object); quick tier 3 calls deep for the 6 assignments of three distinct directions",
    ref="DESIGN.md section 7 (C13)"),
  "C14": dict(
    technique="bounded exhaustive enumeration of reward-row sequences x compositions x binarizers x neighbourhood policies x add_arm(binarizer) variants; differential oracle against a binarizer-free twin fed pre-converted rewards",
    text="Thompson Sampling alone and under each of Radius, KNearest, LSHNearest, Clusters (both k-means variants) and TreeBandit, with three binarizers that are not idempotent on {0,1}, is trained on every row sequence up to the bound through every composition, optionally installing a new binarizer by add_arm after the first call; outputs must equal those of a twin without binarizer trained on the converted rewards.",
-   note="n<=3 rows over a 6-row alphabet with rewards {0,1,2,5} (quick), n<=4 (thorough); known finding F-C14-a (TreeBandit converts leaf rewards again) attributed by trigger + in-memory repair",
+   note="n<=3 rows over a 6-row alphabet with rewards {0,1,2,5} (quick), n<=4 (thorough); known finding F-C14-a (TreeBandit converts leaf rewards again) attributed by trigger + in-memory repair; n_jobs=2 slices; zero-row partial_fit; binarizer first installed by add_arm ('install', 'install_end'); the number of binarizer invocations during training equals the number of observations",
    ref="DESIGN.md section 7 (C14), section 8"),
  "C04": dict(
    technique="exhaustive enumeration of all order-preserving interleavings of a subject script with an interfering bandit's script (56 merges x 3 interferer kinds x every combination); fresh-interpreter runs over a hash-seed alphabet",
    text="The 5-step script of a seeded bandit is interleaved in every possible way with the 3-step script of another bandit with another seed (built from the very same policy tuple objects, from default-constructed tuples, or a TreeBandit) and must produce the outputs it produces alone; the script is also executed in fresh interpreters with PYTHONHASHSEED 0, 1, 4242 and random. TreeBandit subjects use a driver in which the random_state-dependent split choice is observable.",
-   note="single-threaded numerical kernels as the property assumes; one subject script per combination (TreeBandit subjects add an arm and train it on tied columns); a fourth interferer draws from / re-seeds numpy's and random's process-wide generators",
+   note="single-threaded numerical kernels as the property assumes; one subject script per combination (TreeBandit subjects add an arm and train it on tied columns); a fourth interferer draws from / re-seeds numpy's and random's process-wide generators; seed 0 subjects",
    ref="DESIGN.md section 7 (C04)"),
  "C18": dict(
    technique="deviation-bounded exhaustive enumeration of container encodings (all assignments differing from the all-lists baseline in <= B of 7 data axes) per policy combination, with byte-level before/after snapshots of every caller object",
    text="A scenario covering all eight public methods is executed for every encoding assignment within the deviation bound (lists, int/float ndarrays, Fortran/strided/transposed views, Series with non-monotonic index, DataFrames with labels); outputs must equal the baseline and no object passed in (data, arms list, policy parameter objects, feature dict) may change; Series single-row / single-feature disambiguation scenarios are compared with their list equivalents.",
-   note="B = 2 (quick) / 3 (thorough) with int labels; one deviating axis with str labels and with non-dyadic float contexts incl. read-only buffers; exact comparison (1e-9 for linear policies)",
+   note="B = 2 (quick) / 3 (thorough) with int labels; one deviating axis with str labels and with non-dyadic float contexts incl. read-only buffers; exact comparison (1e-9 for linear policies); inexact probability lists, heterogeneous nested lists (all-int first row), scale=True linear policies",
    ref="DESIGN.md section 7 (C18)"),
  "C06": dict(
    technique="bounded exhaustive enumeration of row sequences x all compositions into fit + partial_fit* per policy combination; differential oracle against the single-fit bandit (canonical object-graph identity after generator alignment, else output comparison)",
    text="Every row sequence up to the length bound over a 4-row alphabet (chunks that omit arms and one-row chunks arise from the compositions) is trained once with a single fit and once through every composition into consecutive chunks; the two bandits must be observationally identical from the same stream position.",
-   note="n<=4 (quick; 3 for non-representative policies under a neighbourhood policy) / n<=5 (thorough); bit-exact for count/sum and neighbourhood policies, 1e-9 for linear; TreeBandit and scale=True excluded by the statement",
+   note="n<=4 (quick; 3 for non-representative policies under a neighbourhood policy) / n<=5 (thorough); bit-exact for count/sum and neighbourhood policies, 1e-9 for linear; TreeBandit and scale=True excluded by the statement; seven combinations additionally with n_jobs=2 (joblib model)",
    ref="DESIGN.md section 7 (C06)"),
  "C17": dict(
    technique="explicit-state BFS over valid histories (plus five named stages) x exhaustive catalogue of invalid calls injected at every position; decided by bit-identity of the canonical object graph with the pre-call twin, else by exhaustive continuation comparison",
    text="For every policy combination, at every state of the bounded search and in five named stages (unfitted, fitted, fitted+partial_fit, cold arm listed last / first), every invalid call of the catalogue (~30-42 classes over all eight public methods) is injected once. If the library rejects it, the arm list must be unchanged and the complete object graph must be bit-identical to the twin copied before the call (identical graphs have identical futures); if it differs, every continuation up to depth 2 must give identical outputs.",
-   note="26 rejected constructor calls (arguments, an existing bandit and later-built bandits unaffected); rejected training calls in 'same width' and 'other width' flavours; positions after predictions included; errors raised during prediction are compared after aligning generator positions; calls the library accepts are counted, not judged",
+   note="26 rejected constructor calls (arguments, an existing bandit and later-built bandits unaffected); rejected training calls in 'same width' and 'other width' flavours; positions after predictions included; errors raised during prediction are compared after aligning generator positions; calls the library accepts are counted, not judged; Series contexts among the invalid partial_fit calls",
    ref="DESIGN.md section 7 (C17)"),
  "C15": dict(
    technique="bounded exhaustive enumeration of simulations (bandit lists x data sets x test_size x split mode x every batch size x is_quick) with a differential oracle: replay of each run through the public API on copies taken before the Simulator was built",
    text="Every policy combination singly and every ordered pair of Radius/KNearest bandits with different metrics is simulated over the full product of the parameter alphabet (including every batch size 0..|test|); each run is replayed through fit/predict/predict_expectations/partial_fit with the recomputed split and must report the same predictions (and expectations for deterministic policies).",
-   note="6-12 rows on integer grids with boundary rows, a non-degenerate float grid for seuclidean / mahalanobis and a one-decimal grid (distances within single precision of the radius); train_test_split trusted; randomised policies compared on predictions only",
+   note="6-12 rows on integer grids with boundary rows, a non-degenerate float grid for seuclidean / mahalanobis and a one-decimal grid (distances within single precision of the radius); train_test_split trusted; randomised policies compared on predictions only; bandits with an earlier life (fit + queries) and bandits with n_jobs=2 (joblib model)",
    ref="DESIGN.md section 7 (C15)"),
  "C16": dict(
    technique="bounded exhaustive enumeration of simulations; every reported quantity recomputed independently from the raw data (split, per-arm statistics, evaluation rule incl. neighbourhood statistics by integer distance arithmetic)",
    text="For each bandit kind, data set with arms absent from train/test, test size, split mode, every batch size and is_quick, the simulator's split, statistics, prediction count and min/avg/max analyses are compared with a from-scratch recomputation of the documented rules.",
-   note="the account of the previous simulation is re-read after each further simulation; LSH neighbourhood statistics are taken as reported; KNearest rows with tied k-th distance use the reported neighbourhood (counted)",
+   note="the account of the previous simulation is re-read after each further simulation; LSH neighbourhood statistics are taken as reported; KNearest rows with tied k-th distance use the reported neighbourhood (counted); the bandit under account also as the second of two neighbourhood bandits with different metrics, and with n_jobs=2",
    ref="DESIGN.md section 7 (C16)"),
  "C05": dict(
    technique="exhaustive enumeration of partitions, compositions and completion orders through a joblib model driven by the explorer; stateless preemption-bounded schedule exploration (sys.monitoring INSTRUCTION-level scheduler, real threads, one running at a time) of the shared-memory regions; conformance runs against real joblib",
    text="(1) _partition_contexts is checked for every n<=64, n_jobs and cpu count; (2) for every neighbourhood combination, every query batch up to the bound, every composition into contiguous chunks is run through the library's own _parallel_predict on isolated pickled copies and on the shared object in every completion order and must give the n_jobs=1 result; (3) per-arm fit tasks, LSH insert tasks and threading-backend prediction tasks are executed under every schedule with at most B preemptions at attribute/subscript/call granularity and must reproduce the sequential model and outputs, plus a free-running recorder pass checking disjoint write sets; (4) the joblib model is compared with real joblib backends.",
-   note="batches <=4 rows (quick) / <=6 (thorough), also under data-dependent metrics (seuclidean, mahalanobis, cosine); preemption bound 1 / 2; NumPy/scikit-learn calls atomic; only receivers in the shared bandit graph are preemptible; known finding F-C05-a (TreeBandit draws from the main generator inside tasks) attributed by trigger + in-memory repair",
+   note="batches <=4 rows (quick) / <=6 (thorough), also under data-dependent metrics (seuclidean, mahalanobis, cosine); preemption bound 1 / 2; NumPy/scikit-learn calls atomic; only receivers in the shared bandit graph are preemptible; known finding F-C05-a (TreeBandit draws from the main generator inside tasks) attributed by trigger + in-memory repair; thorough: batches <=5, bound 1 for ts/tree and eg5/tree predictions; obligation 6: overflowing totals under n_jobs 1..3; schedule exploration sharded by the index of the first preemption",
    ref="DESIGN.md sections 3.4 and 7 (C05)"),
  "C11": dict(
    technique="bounded exhaustive enumeration of stored-row tuples over {-1,0,1}^d x assignments x compositions x LSH settings x n_jobs x queries (stored, scaled, grid, zero) against an exact-rational sign-pattern oracle built from the bandit's own hyperplanes",
    text="Every tuple of up to n vectors of {-1,0,1}^d (zero vector included) is stored through every composition into fit + partial_fit*, for three (n_dimensions, n_tables) settings and hashing with n_jobs 1 and 2; for every query of the alphabet the expectations must equal the learning policy trained on exactly the rows whose exact sign pattern collides with the query's in at least one table, NaN if none; scaled queries must agree with the original and a stored row must find itself.",
-   note="planes are read from the fitted bandit (they are random but fixed at fit time); projections are evaluated in exact rationals; d=1 n<=4, d=2 n<=3, d=3 n<=2 (quick); three seeds, all arm assignments and d=1 n<=5 in thorough; half of the histories are preceded by an earlier life of the same bandit (fit + query)",
+   note="planes are read from the fitted bandit (they are random but fixed at fit time); projections are evaluated in exact rationals; d=1 n<=4, d=2 n<=3, d=3 n<=2 (quick); three seeds, all arm assignments and d=1 n<=5 in thorough; half of the histories are preceded by an earlier life of the same bandit (fit + query); queries 2^600 x and 2^-600 x every stored row; a third of the bandits remove arm 2 before the queries",
    ref="DESIGN.md section 7 (C11)"),
  "C03": dict(
    technique="bounded exhaustive enumeration of stored-row tuples x arm assignments x compositions x metric x radius/k x policy x grid queries against an integer-arithmetic neighbourhood oracle (reference policy re-trained on the oracle's rows)",
    text="Every tuple of up to n grid points as stored contexts, with arm assignments, compositions into fit + partial_fit*, four metrics, radii on exact distance values (boundary included, sqrt(2) for euclidean), every k, and every grid point as query (batch and single row) is executed; expectations must equal the library's learning policy trained from scratch on exactly the oracle's neighbourhood (any admissible KNearest tie-break), empty neighbourhoods give NaN and the replicated empty-neighbourhood draw.",
-   note="grids {0..3}, {0,1,2}x{0,1}, a metric-order-sensitive 5-point grid (quick); 3x3 grid and longer tuples (thorough); radii over every distance value of the grid; a third of the bandits first live an earlier life (fit + query) before the history; scipy cdist not trusted (oracle uses integers), the learning policy is (C01/C02 judge it)",
+   note="grids {0..3}, {0,1,2}x{0,1}, a metric-order-sensitive 5-point grid (quick); 3x3 grid and longer tuples (thorough); radii over every distance value of the grid; a third of the bandits first live an earlier life (fit + query) before the history; scipy cdist not trusted (oracle uses integers), the learning policy is (C01/C02 judge it); a third of the bandits answer with n_jobs=2 (joblib model), a quarter remove arm 2, answer a query and add it again; Softmax / Thompson tuples of <=2 rows in the quick tier",
    ref="DESIGN.md section 7 (C03)"),
  "C02": dict(
    technique="bounded exhaustive enumeration of training histories (row sequences x compositions into fit+partial_fit x arm additions x query batch sizes) against an exact-rational ridge-regression reference executed in lock-step",
    text="For every policy setting, lambda, scale flag and feature count 1..3, every row sequence up to the length bound over the row alphabet, every composition into fit + partial_fit*, three arm-addition variants and query batches of 1..3 rows are executed on the implementation and compared with Gaussian elimination over fractions. Exhaustive within the alphabet.",
-   note="n<=3 rows over 4 rows (quick) / n<=4 over 5 rows (thorough), real-valued and negative contexts included, plus one 703-row single-fit history per configuration; tolerance 1e-9 (1e-6 for LinTS at alpha=1e-9 and for scale=True); known finding F-C02-a (unobserved-arm covariance) is attributed by trigger + in-memory repair",
+   note="n<=3 rows over 4 rows (quick) / n<=4 over 5 rows (thorough), real-valued and negative contexts included, plus one 703-row single-fit history per configuration; tolerance 1e-9 (1e-6 for LinTS at alpha=1e-9 and for scale=True); known finding F-C02-a (unobserved-arm covariance) is attributed by trigger + in-memory repair; adjacent large labels (100001..100003) with decisions as list / int64 / float64 arrays",
    ref="DESIGN.md section 7 (C02), section 8"),
  "C01": dict(
    technique="explicit-state BFS over the real bandit in lock-step with an exact-rational reference model (product state = bandit digest x reference state); sampler replayed bit-exactly on a cloned generator",
    text="Every history up to the depth bound over {fit, partial_fit with every 1-row and ordered 2-row batch, add_arm, remove_arm, re-add} is executed for each context-free policy setting and label type; after every transition the learned expectations must equal the reference model's statistic and predict_expectations() must equal the documented sampler applied to them.",
-   note="depth 4 (quick) / 5 (thorough); rewards from {-1.5, 0, 2, 1e6} / {0,1,3} / {0,1}; relative tolerance 1e-9 against exact rationals; the distributional claim is decided by exact replay of the sampler, not statistically",
+   note="depth 4 (quick) / 5 (thorough); rewards from {-1.5, 0, 2, 1e6} / {0,1,3} / {0,1}; relative tolerance 1e-9 against exact rationals; the distributional claim is decided by exact replay of the sampler, not statistically; extra shards: narrow integer reward arrays (int8/int32 totals beyond the dtype) and close means at level 2^30 (Softmax tau 0.07/0.011, UCB1, greedy), depth 3",
    ref="DESIGN.md section 7 (C01)"),
  "C07": dict(
    technique="explicit-state BFS over the real bandit (prior histories, canonical-digest de-duplication) x exhaustive D/continuation alphabet; differential oracle against a freshly constructed bandit",
@@ -87,7 +87,7 @@ CHECKS = {
  "C08": dict(
    technique="explicit-state BFS over the real bandit from the unfitted state (arm changes x training calls, canonical-digest de-duplication); shape/membership/order invariant evaluated in every fitted state for 0/1/2/3 query rows",
    text="All histories up to the depth bound over {fit, partial_fit, add_arm, remove_arm incl. re-adding, warm_start} from the unfitted bandit are executed for every policy combination, three label types and n_jobs 1/2; in every reached fitted state the outputs of predict and predict_expectations are checked against the current arm list. Exhaustive within the alphabet; states de-duplicated by a digest of the complete object graph.",
-   note="depth 3 (quick; 2 for float labels and n_jobs=2) / 4 (thorough); the BFS alphabet contains a prediction made by the bandit itself, and every state is probed with 'query, equal-count arm swap, query'; n_jobs=2 runs through the joblib model of mcx/sched.py (isolated pickled workers) whose conformance with real joblib is checked in C05; KNearest states with fewer rows than k are out of domain",
+   note="depth 3 (quick; 2 for float labels and n_jobs=2) / 4 (thorough); the BFS alphabet contains a prediction made by the bandit itself, and every state is probed with 'query, equal-count arm swap, query'; n_jobs=2 runs through the joblib model of mcx/sched.py (isolated pickled workers) whose conformance with real joblib is checked in C05; KNearest states with fewer rows than k are out of domain; label type 'mixed' (numeric arms, a str arm added later)",
    ref="DESIGN.md section 7 (C08)"),
  "C09": dict(
    technique="explicit-state BFS (same search as C08) extended with tie and near-tie training sets; per-state differential check predict vs arg-max of predict_expectations from the same stream position",
@@ -97,12 +97,12 @@ CHECKS = {
  "C10": dict(
    technique="explicit-state BFS over the real bandit; in every fitted state: query programs x continuations enumerated exhaustively, queried copy vs never-queried twin after generator positions are aligned by object-graph path",
    text="For every reachable state within the bound, every query program of the alphabet and every continuation up to the continuation depth, the bandit that answered queries and its untouched twin must give identical outputs afterwards (n_jobs=1, and n_jobs=2 with thread and process semantics through the joblib model).",
-   note="BFS depth 2/3, continuation depth 2; bit-identity of the complete object graph after generator alignment decides all futures, otherwise continuations are compared; where queries re-wire generator objects (not observable by itself) only randomness-free outputs are compared and the rest is counted as skipped",
+   note="BFS depth 2/3, continuation depth 2; bit-identity of the complete object graph after generator alignment decides all futures, otherwise continuations are compared; where queries re-wire generator objects (not observable by itself) only randomness-free outputs are compared and the rest is counted as skipped; the shared warm-start operation has tied feature vectors",
    ref="DESIGN.md section 7 (C10)"),
  "C19": dict(
    technique="explicit-state BFS over the real bandit (unfitted states included); per state: copy methods x continuations enumerated exhaustively, original vs copy differential oracle, plus restore in a fresh interpreter with another hash seed",
    text="Every state reachable within the bound is deep-copied, pickled with protocols 2..5 and restored (protocol 4 also in a fresh interpreter); every continuation up to the continuation depth must give identical outputs on original and copy, and training/querying the copy must leave the original unchanged.",
-   note="BFS depth 2 (quick) / 3 (thorough, int labels), continuation depth 1; the original is rebuilt from its history for every comparison and never copied; quick tier uses deepcopy, protocol 5 and the fresh-interpreter protocol-4 restore; binarizers are module-level functions",
+   note="BFS depth 2 (quick) / 3 (thorough, int labels), continuation depth 1; the original is rebuilt from its history for every comparison and never copied; quick tier uses deepcopy, protocol 5 and the fresh-interpreter protocol-4 restore; binarizers are module-level functions; Thompson Sampling binarizer histories (add_arm with a binarizer, non-binary continuations); five combinations with n_jobs=2 (joblib model)",
    ref="DESIGN.md section 7 (C19)"),
 }
 NOT_APPLICABLE = []
